@@ -86,7 +86,8 @@ struct Case {
     #[serde(default)]
     fresh_ids: bool,
     /// how the collectors are handed to `Dispatch::new`: 0 by value, 1 in an `Arc`, 2 as
-    /// `Box<dyn Collect>` (the forwarding impls must pass every notification on)
+    /// `Box<dyn Collect>` (the forwarding impls must pass every notification on), 3 as
+    /// `Dispatch::from_static` of a leaked collector
     #[serde(default)]
     wrap: u8,
 }
@@ -350,8 +351,10 @@ fn run_case(case: &Case) -> Outcome {
     let filt = FilterSpec { max_level: 4, targets: None, dynamic: false, dyn_static_never: false, hint: None };
     let (ca, sa) = RecCollector::new(0, filt.clone(), false);
     let (cb, sb) = RecCollector::new(1, filt, false);
-    let (da, db) = match case.wrap % 3 {
+    let (da, db) = match case.wrap % 4 {
         0 => (Dispatch::new(ca), Dispatch::new(cb)),
+        // collectors with static lifetime (leaked on purpose), never installed as global default
+        3 => (Dispatch::from_static(Box::leak(Box::new(ca))), Dispatch::from_static(Box::leak(Box::new(cb)))),
         1 => (Dispatch::new(Arc::new(ca)), Dispatch::new(Arc::new(cb))),
         _ => {
             let (ba, bb): (Box<dyn tracing_core::Collect + Send + Sync>, Box<dyn tracing_core::Collect + Send + Sync>) = (Box::new(ca), Box::new(cb));
@@ -1199,7 +1202,7 @@ impl Property for C03 {
             3 => (t(), sel.clone()).prop_map(|(t, sel)| Op::SwitchDefault { t, sel }),
         ];
         let max = tier.pick(40usize, 60usize);
-        (proptest::collection::vec(sel, NT), proptest::collection::vec(op, 1..max), any::<bool>(), prop_oneof![3 => Just(0u8), 1 => Just(1u8), 1 => Just(2u8)])
+        (proptest::collection::vec(sel, NT), proptest::collection::vec(op, 1..max), any::<bool>(), prop_oneof![3 => Just(0u8), 1 => Just(1u8), 1 => Just(2u8), 1 => Just(3u8)])
             .prop_map(|(sels, ops, fresh_ids, wrap)| {
                 let mut all: Vec<Op> = sels.into_iter().enumerate().map(|(t, sel)| Op::SwitchDefault { t: t as u8, sel }).collect();
                 all.extend(ops);
